@@ -237,3 +237,48 @@ func stopDuringRefresh(r *lib.Run, idx int) {
 	default:
 	}
 }
+
+// emptyTableWithInitCheck: the first node of a network - no bootstrap nodes, the table's initial check enabled (the
+// production default). Its own start-up refresh runs lookups over the empty table; node and content lookups asked of
+// it must end all the same.
+func emptyTableWithInitCheck(r *lib.Run, idx int) {
+	rng := r.RNG("C-empty-table", idx)
+	hub := pnode.NewHub()
+	R, err := hub.StartNode(pnode.NodeOpts{Key: pnode.NewKey(rng), Addr: pnode.Addr4(10, 10, 6, byte(1+idx), 9000), Network: portalwire.History, Versions: []uint8{0, 1},
+		MaxUtp: 10, RespTimeout: 300 * time.Millisecond, VersionsTTL: time.Hour, InitCheck: true})
+	if err != nil {
+		r.FloorMiss("part C: start node: %v", err)
+		return
+	}
+	var target enode.ID
+	rng.Read(target[:])
+	type res struct {
+		what string
+		n    int
+	}
+	done := make(chan res, 2)
+	go func() { done <- res{"node lookup", len(R.P.Lookup(target))} }()
+	go func() {
+		key := append([]byte{0x00}, target[:]...)
+		_, _, _ = R.P.ContentLookup(key, R.P.ToContentId(key))
+		done <- res{"content lookup", 0}
+	}()
+	r.Eval(2)
+	r.Count("C_empty_table_init_check_runs", 1)
+	r.Distinct(fmt.Sprintf("C-empty-table-%d", idx))
+	ok := true
+	for k := 0; k < 2; k++ {
+		select {
+		case <-done:
+		case <-time.After(60 * time.Second):
+			ok = false
+			r.Violation("lookup-never-finishes:empty-table-with-initial-check",
+				"a lookup over an empty starting table of a node started with the table's initial check enabled has not returned after 60 s",
+				map[string]any{"case": idx, "goroutines_head": goroutineDump()[:min(len(goroutineDump()), 6000)]})
+			k = 2
+		}
+	}
+	if ok {
+		R.Stop()
+	}
+}
